@@ -217,6 +217,8 @@ def _merge(a: World, b: World, r: World) -> World:
                 u = new_uid()
                 r.ws[u] = join_w(r.ws[va[1]], r.ws[vb[1]])
                 fa.env[k] = ("lst", u)
+            elif va and vb and va[0] == vb[0] == "lst":
+                fa.env[k] = va if va[1] else vb
             elif va is None and vb and vb[0] in ("w", "lst"):
                 fa.env[k] = vb  # defined on one path only: keep it (obligations are may-properties)
             elif vb is None and va and va[0] in ("w", "lst"):
@@ -673,6 +675,8 @@ class Tom:
             ws = [v for v in vals if v and v[0] == "w"]
             if ws and isinstance(e, ast.List):
                 return ("lst", ws[0][1])
+            if isinstance(e, ast.List) and not e.elts:
+                return ("lst", None)
             return None
         if isinstance(e, (ast.ListComp, ast.GeneratorExp, ast.SetComp)):
             return self._comp(e, world)
@@ -825,6 +829,18 @@ class Tom:
         if rv and rv[0] == "w":
             return self._call_on_w(rv[1], m, c, argv, kwv, world)
         if rv and rv[0] == "lst":
+            if m in ("append", "extend", "insert") and isinstance(recv, ast.Name):
+                a = argv[-1] if argv else None
+                if a and a[0] in ("w", "lst") and a[1]:
+                    if rv[1] and rv[1] in world.ws:
+                        u = new_uid()
+                        world.ws[u] = join_w(world.ws[rv[1]], world.ws[a[1]])
+                        world.frame.env[recv.id] = ("lst", u)
+                    else:
+                        u = new_uid()
+                        world.ws[u] = world.ws[a[1]].copy()
+                        world.frame.env[recv.id] = ("lst", u)
+                return None
             if m in ("append", "extend", "insert"):
                 return None
             if m == "pop":
